@@ -261,7 +261,11 @@ func (f *file) Write(p []byte) (n int, err error) {
 
 func (f *file) WriteBlob(p blob.Blob) (n int, err error) {
 	n, err = f.writeBlobAt("write", p, f.offset)
-	f.offset += int64(n)
+	if f.flag&hackpadfs.FlagAppend != 0 && n > 0 {
+		f.offset = f.currentSize() // appending leaves the offset at the new end of the file
+	} else {
+		f.offset += int64(n)
+	}
 	return
 }
 
